@@ -105,6 +105,11 @@ def gen_workflow(rng: random.Random, opts=None):
                             cands.append({'t': t, 'out': out, 'off': str(icp + 1) if form == 'icp+1' else form})
                     if rec not in ('R1', 'R1/$', 'R1/+P1') and rng.random() < opts.get('p_intercycle', 0.35):
                         cands.append({'t': t, 'out': out, 'off': rng.choice(offs)})
+                    if opts.get('p_future') and rng.random() < opts['p_future']:
+                        # C04F / C07F (additive, only with option p_future; no draw otherwise): FUTURE triggers
+                        # 'foo[+P1] => bar' from any task (also bar itself) in any section, one-off ones included
+                        # (at the final cycle point they refer beyond the final point)
+                        cands.append({'t': t, 'out': out, 'off': rng.choice(['+P1', '+P1', '+P2'])})
             if not cands or rng.random() < 0.15:
                 lines.append(rhs_text(rhs))      # lone node
                 used.add(rhs)
@@ -216,7 +221,7 @@ def gen_policy(rng, wf, kind='complete', opts=None):
         oc = {'custom': [c + c for c in p['custom']], 'p_custom': 1.0, 'p_fail': 0.0,
               'exec_retries': p['exec_retries'], 'sub_retries': p['sub_retries'],
               'p_retry_fail': 0.6}
-        if kind in ('complete', 'cmd', 'cmdtrigc', 'set', 'cmdrmc', 'cmdrmr', 'cmdrl', 'qc', 'cmdqc', 'crash', 'cmdcrash'):   # ('cmdtrigc': C28, 'set': C29/C08S, 'cmdrm*': C30, 'cmdrl': C27, additive)
+        if kind in ('complete', 'cmd', 'cmdtrigc', 'set', 'cmdrmc', 'cmdrmr', 'cmdrl', 'qc', 'cmdqc', 'crash', 'cmdcrash', 'fut'):   # ('fut': C04F/C07F, 'cmdtrigc': C28, 'set': C29/C08S, 'cmdrm*': C30, 'cmdrl': C27, additive)
             if p['opt_fail']:
                 oc['p_fail'] = 0.4
             # optional custom outputs may be skipped; required ones are always produced
@@ -331,6 +336,17 @@ def gen_policy(rng, wf, kind='complete', opts=None):
             pol['cmds'] = ['hold', 'release', 'hold', 'release', 'set_hold_point', 'release_hold_point',
                            'stop_point', 'stop_task', 'stop_clean', 'stop_now', 'pause', 'resume']
             pol['p_cmd'] = 0.12
+    if kind in ('fut', 'futany', 'futcmd'):
+        # C04F / C07F (additive; new kinds, drawn after everything else): workflows with future triggers (gen_case sets
+        # option p_future); 'fut': complete outcomes, no noise; 'futany': failures / noise as in 'any'; 'futcmd': any
+        # outcomes + stop points set by command (often), holds, hold point, pause, stop + restart
+        if kind == 'fut':
+            pol['p_noise'] = 0.0
+        if kind == 'futcmd':
+            pol['cmds'] = ['stop_point', 'stop_point', 'stop_point', 'hold', 'release', 'set_hold_point',
+                           'release_hold_point', 'stop_point', 'stop_clean', 'stop_now', 'pause', 'resume']
+            pol['p_cmd'] = rng.choice([0.08, 0.14, 0.2])
+            pol['restarts'] = rng.choice([0, 1, 2])
     return pol
 
 
@@ -354,6 +370,9 @@ def gen_case(seed: int, kind='complete', opts=None):
         # ('qf' intervention-free, 'cmdqf' with holds / pause / stop point / stop + restart as 'cmdq')
         opts = dict({'queue_limits': [1, 1, 2], 'default_queue_limits': [1, 2], 'retries': False, 'p_optfail': 0.12,
                      'p_default_limit': 0.5}, **(opts or {}), queues=True)
+    if kind in ('fut', 'futany', 'futcmd'):
+        # C04F / C07F (additive): the future-trigger kinds generate workflows with '[+P1]' / '[+P2]' triggers
+        opts = dict({'p_future': 0.3}, **(opts or {}))
     wf = gen_workflow(rng, opts)
     case = {'id': f'{kind}{seed}', 'flow': wf['flow'], 'seed': seed, 'opts': wf['opts'],
             'policy': gen_policy(rng, wf, kind, opts), 'ops': None, 'kind': kind}
